@@ -10,7 +10,7 @@ from __future__ import annotations
 import ast
 
 from ..cfg import CFG, facts_at
-from ..core import AnalysisError, FuncNode, call_name, calls_in, dotted, src
+from ..core import AnalysisError, FuncNode, call_name, calls_in, dotted, last_attr, src
 from ..lifecycle import SCHED, Lifecycle, describe_trace
 from ..linear import linear_cmp
 
@@ -240,6 +240,27 @@ def run(ctx):
         m.rel,
         gl.lineno,
     )
+    # ---- C08.5 the accounting is reset only after the executors have waited for their jobs ------------
+    # Scheduler.clear() zeroes limits_used at the start of the next execution on the assumption that executor.stop() (called when the previous
+    # execution ended) has waited for every job still running.  A local pool shut down with wait=False leaves such a job running *and holding its
+    # units* while the counters say 0: the next execution admits another job on the same resource.
+    r5 = ctx.rule("C08.5", "LocalExecutor.stop() waits for its pools (no shutdown(wait=False))", floor=1)
+    lm = repo.mod("redun/executors/local.py")
+    stopf = lm.func("LocalExecutor.stop")
+    downs = [c for c in calls_in(stopf) if last_attr(c) == "shutdown"]
+    if not downs:
+        raise AnalysisError("LocalExecutor.stop: pool shutdown calls not found", "LocalExecutor.stop")
+    for c in downs:
+        w = next((k.value for k in c.keywords if k.arg == "wait"), c.args[0] if c.args else None)
+        nowait = w is not None and not (isinstance(w, ast.Constant) and w.value is True)
+        r5.check(
+            not nowait,
+            f"{lm.rel}:LocalExecutor.stop:{src(c.func)}",
+            f"`{src(c)}` does not wait for the jobs still running in the pool: Scheduler.clear() resets limits_used at the start of the next execution while such a job still holds its units, so a second job "
+            "on the same resource is admitted (limit exceeded), and the old job's late completion releases again (usage goes negative)",
+            lm.rel,
+            c.lineno,
+        )
 
 
 def _resolves_to_get_limits(fn, a, jobvar) -> bool:
